@@ -80,6 +80,66 @@ impl Default for RegexType {
     }
 }
 
+/// In the POSIX extended syntax a `)` without an open group stands for itself.
+/// Inside the group that anchors the pattern it would close that group instead,
+/// so such a `)` is escaped.  (The pattern is known to be valid.)
+fn escape_unmatched_close_parens(pattern: &str) -> String {
+    let mut escaped = String::new();
+    let mut open_groups = 0_usize;
+    let mut chars = pattern.chars().peekable();
+    while let Some(c) = chars.next() {
+        match c {
+            '\\' => {
+                escaped.push(c);
+                if let Some(quoted) = chars.next() {
+                    escaped.push(quoted);
+                }
+            }
+            '[' => {
+                // Copy the bracket expression: a leading `]` (after an optional
+                // `^`) is a member, and `[:class:]`, `[.x.]`, `[=x=]` contain one.
+                escaped.push(c);
+                if let Some(negation) = chars.next_if_eq(&'^') {
+                    escaped.push(negation);
+                }
+                if let Some(member) = chars.next_if_eq(&']') {
+                    escaped.push(member);
+                }
+                while let Some(member) = chars.next() {
+                    escaped.push(member);
+                    if member == ']' {
+                        break;
+                    }
+                    if member == '[' {
+                        if let Some(kind) = chars.next_if(|k| matches!(k, ':' | '.' | '=')) {
+                            escaped.push(kind);
+                            let mut previous = '[';
+                            for inner in chars.by_ref() {
+                                escaped.push(inner);
+                                if previous == kind && inner == ']' {
+                                    break;
+                                }
+                                previous = inner;
+                            }
+                        }
+                    }
+                }
+            }
+            '(' => {
+                open_groups += 1;
+                escaped.push(c);
+            }
+            ')' if open_groups == 0 => escaped.push_str("\\)"),
+            ')' => {
+                open_groups -= 1;
+                escaped.push(c);
+            }
+            _ => escaped.push(c),
+        }
+    }
+    escaped
+}
+
 pub struct RegexMatcher {
     regex: Regex,
 }
@@ -116,7 +176,9 @@ impl RegexMatcher {
                 | SyntaxOperator::SYNTAX_OPERATOR_ESC_GNU_BUF_ANCHOR,
         );
         let anchored = match regex_type {
-            RegexType::PosixExtended => format!("(?:{pattern})\\'"),
+            RegexType::PosixExtended => {
+                format!("(?:{})\\'", escape_unmatched_close_parens(pattern))
+            }
             RegexType::Emacs | RegexType::Grep | RegexType::PosixBasic => {
                 format!("\\(?:{pattern}\\)\\'")
             }
